@@ -69,7 +69,7 @@ fn exec_io(sc: &Scenario) -> Report {
         let mk = || SimIo::new(sc.seed ^ 0xABCD, sc.c("data_len") as usize, sc.c("p_err"), sc.c("p_short"), 0);
         let inner = mk();
         let mirror = inner.mirror.clone();
-        let mut w: ProgressBarIter<SimIo> = pb.wrap_read(inner);
+        let mut w: ProgressBarIter<SimIo> = if sc.c("ctor") == 1 { pb.wrap_write(inner) } else { pb.wrap_read(inner) };
         let mut t = mk();
         let mut model: u64 = 0;
         let mut last_fill: usize = 0;
@@ -219,6 +219,84 @@ fn exec_io(sc: &Scenario) -> Report {
                             last_fill = 0;
                         }
                     }
+                    // provided methods of the std traits (they go through the calls above, or
+                    // count alike if overridden)
+                    "write_all" => {
+                        let len = op.n0() as usize;
+                        let buf: Vec<u8> = (0..len).map(|j| (j % 13) as u8).collect();
+                        let before = t.written.len();
+                        let (r1, r2) = (w.write_all(&buf), t.write_all(&buf));
+                        if kind_of(&r1) != kind_of(&r2) {
+                            return Err(format!("write_all: wrapped {r1:?} vs twin {r2:?}"));
+                        }
+                        match r2 {
+                            Ok(()) => model = model.wrapping_add(len as u64),
+                            // everything that went through before the error may be counted
+                            Err(_) => slack = (t.written.len() - before) as u64,
+                        }
+                    }
+                    "read_until" => {
+                        let delim = b'a' + (op.n0() % 26) as u8;
+                        let (mut v1, mut v2) = (vec![], vec![]);
+                        let before = t.pos;
+                        let (r1, r2) = (w.read_until(delim, &mut v1), t.read_until(delim, &mut v2));
+                        if kind_of(&r1) != kind_of(&r2) || r1.as_ref().ok() != r2.as_ref().ok() || v1 != v2 {
+                            return Err(format!("read_until: wrapped {r1:?} {v1:?} vs twin {r2:?} {v2:?}"));
+                        }
+                        match r2 {
+                            Ok(n) => model = model.wrapping_add(n as u64),
+                            Err(_) => slack = (t.pos - before) as u64,
+                        }
+                        last_fill = 0;
+                    }
+                    "bytes_next" => {
+                        let before = t.pos;
+                        let r1 = std::io::Read::by_ref(&mut w).bytes().next();
+                        let r2 = std::io::Read::by_ref(&mut t).bytes().next();
+                        let same = match (&r1, &r2) {
+                            (None, None) => true,
+                            (Some(a), Some(b)) => kind_of(a) == kind_of(b) && a.as_ref().ok() == b.as_ref().ok(),
+                            _ => false,
+                        };
+                        if !same {
+                            return Err(format!("bytes().next(): wrapped {r1:?} vs twin {r2:?}"));
+                        }
+                        model = model.wrapping_add((t.pos - before) as u64);
+                    }
+                    "io_copy" => {
+                        let (mut s1, mut s2): (Vec<u8>, Vec<u8>) = (vec![], vec![]);
+                        let before = t.pos;
+                        let (r1, r2) = (std::io::copy(&mut w, &mut s1), std::io::copy(&mut t, &mut s2));
+                        if kind_of(&r1) != kind_of(&r2) || r1.as_ref().ok() != r2.as_ref().ok() || s1 != s2 {
+                            return Err(format!("io::copy: wrapped {r1:?} vs twin {r2:?}"));
+                        }
+                        match r2 {
+                            Ok(n) => model = model.wrapping_add(n),
+                            Err(_) => slack = (t.pos - before) as u64,
+                        }
+                        last_fill = 0;
+                    }
+                    "rewind" => {
+                        let (r1, r2) = (w.rewind(), t.rewind());
+                        if kind_of(&r1) != kind_of(&r2) {
+                            return Err(format!("rewind: wrapped {r1:?} vs twin {r2:?}"));
+                        }
+                        if r2.is_ok() {
+                            model = 0;
+                            last_fill = 0;
+                        }
+                    }
+                    "seek_relative" => {
+                        let off = op.n0() as i64 - 20;
+                        let (r1, r2) = (w.seek_relative(off), t.seek_relative(off));
+                        if kind_of(&r1) != kind_of(&r2) {
+                            return Err(format!("seek_relative({off}): wrapped {r1:?} vs twin {r2:?}"));
+                        }
+                        if r2.is_ok() {
+                            model = t.pos as u64;
+                            last_fill = 0;
+                        }
+                    }
                     "advance" => verif_simrt::sched::advance_quiet(op.n0()),
                     other => return Err(format!("HARNESS unknown op {other}")),
                 }
@@ -290,7 +368,7 @@ fn exec_aio(sc: &Scenario) -> Report {
         let mk = || SimIo::new(sc.seed ^ 0xA510, sc.c("data_len") as usize, sc.c("p_err"), sc.c("p_short"), sc.c("p_pending"));
         let inner = mk();
         let mirror = inner.mirror.clone();
-        let mut w: ProgressBarIter<SimIo> = pb.wrap_async_read(inner);
+        let mut w: ProgressBarIter<SimIo> = if sc.c("ctor") == 1 { pb.wrap_async_write(inner) } else { pb.wrap_async_read(inner) };
         let mut t = mk();
         let (waker, wakes) = counting_waker();
         let mut cx = Context::from_waker(&waker);
@@ -517,39 +595,52 @@ fn exec_iter(sc: &Scenario) -> Report {
             drop(w);
             return r;
         }
-        let mut w = SimItems::new(sc.seed, n, 0).progress_with(pb.clone());
+        let mut w = if sc.c("ctor") == 1 { pb.wrap_iter(SimItems::new(sc.seed, n, 0)) } else { SimItems::new(sc.seed, n, 0).progress_with(pb.clone()) };
         let mut t = SimItems::new(sc.seed, n, 0);
         for (i, op) in ops.iter().enumerate() {
             let at = format!("op#{i} {}", op.short());
-            let step = call(|| -> Result<Option<Option<u32>>, String> {
-                match op.k.as_str() {
-                    "next" => {
-                        let (a, b) = (w.next(), t.next());
+            // (items handed out, the wrapped iterator's next()/next_back() returned None)
+            let step = call(|| -> Result<(u64, bool), String> {
+                let before = t.len() as u64;
+                macro_rules! same {
+                    ($name:expr, $a:expr, $b:expr) => {{
+                        let (a, b) = ($a, $b);
                         if a != b {
-                            return Err(format!("next: wrapped {a:?} vs twin {b:?}"));
+                            return Err(format!("{}: wrapped {a:?} vs twin {b:?}", $name));
                         }
-                        Ok(Some(b))
-                    }
-                    "next_back" => {
-                        let (a, b) = (w.next_back(), t.next_back());
-                        if a != b {
-                            return Err(format!("next_back: wrapped {a:?} vs twin {b:?}"));
-                        }
-                        Ok(Some(b))
-                    }
+                        b
+                    }};
+                }
+                let k = op.n0() as usize;
+                let hit_end = match op.k.as_str() {
+                    "next" => same!("next", w.next(), t.next()).is_none(),
+                    "next_back" => same!("next_back", w.next_back(), t.next_back()).is_none(),
                     "len" => {
-                        let (a, b) = (w.len(), t.len());
-                        if a != b {
-                            return Err(format!("len: wrapped {a} vs twin {b}"));
-                        }
-                        Ok(None)
+                        same!("len", w.len(), t.len());
+                        same!("size_hint", Iterator::size_hint(&w), Iterator::size_hint(&t));
+                        false
                     }
+                    // provided methods: they must go through next()/next_back() (or count alike)
+                    "nth" => same!("nth", w.by_ref().nth(k), t.by_ref().nth(k)).is_none(),
+                    "nth_back" => same!("nth_back", w.by_ref().nth_back(k), t.by_ref().nth_back(k)).is_none(),
+                    "take_count" => same!("take.count", w.by_ref().take(k).count(), t.by_ref().take(k).count()) < k,
+                    "rev_next" => same!("rev.next", w.by_ref().rev().next(), t.by_ref().rev().next()).is_none(),
+                    "last" => {
+                        same!("last", w.by_ref().last(), t.by_ref().last());
+                        true
+                    }
+                    "sum_rest" => {
+                        same!("fold", w.by_ref().fold(0u64, |a, x| a.wrapping_mul(31).wrapping_add(x as u64)), t.by_ref().fold(0u64, |a, x| a.wrapping_mul(31).wrapping_add(x as u64)));
+                        true
+                    }
+                    "find" => same!("find", w.by_ref().find(|x| *x as usize % 5 == k % 5), t.by_ref().find(|x| *x as usize % 5 == k % 5)).is_none(),
                     "advance" => {
                         verif_simrt::sched::advance_quiet(op.n0());
-                        Ok(None)
+                        false
                     }
-                    other => Err(format!("HARNESS unknown op {other}")),
-                }
+                    other => return Err(format!("HARNESS unknown op {other}")),
+                };
+                Ok((before - t.len() as u64, hit_end))
             });
             match step {
                 Err(p) => {
@@ -564,15 +655,16 @@ fn exec_iter(sc: &Scenario) -> Report {
                     }
                     break;
                 }
-                Ok(Ok(Some(Some(_)))) => model += 1,
-                Ok(Ok(Some(None))) => {
+                Ok(Ok((consumed, hit_end))) => {
                     if !exhausted {
+                        model += consumed;
+                    }
+                    if hit_end && !exhausted {
                         exhausted = true;
                         model = expected_after_exhaustion(&sc, model);
                         r.probe("exhausted");
                     }
                 }
-                Ok(Ok(None)) => {}
             }
             check_pos(&mut r, &pb, model, 0, &at);
             if pb.is_finished() != exhausted {
@@ -1007,7 +1099,7 @@ impl Check for C17 {
         "C17"
     }
     fn rule_text(&self) -> String {
-        "modes io (Read/read_vectored/read_exact/read_to_string/BufRead fill_buf+consume/Write/write_vectored/flush/Seek/stream_position), aio (tokio poll_read/poll_fill_buf/consume/poll_write/poll_flush/poll_shutdown/AsyncSeek, hand polled), stream (poll_next), iter (next/next_back/len, exhaustion and cancellation), rayon (drive, with_producer, drive_unindexed through a seeded split driver, leaves on simulated threads). 1..40 PRNG calls per run against a simulated source/sink whose every call draws full/short/EINTR/EAGAIN/EIO/Pending/EOF from its own PRNG; the unwrapped twin gets the same plan and call sequence; results, buffers, error kinds and Poll states must be equal call by call and position() must equal the bytes/items actually transferred (seek: new offset; read_exact/read_to_string errors: anywhere up to the bytes the source delivered). Non-trivial: io/aio = >= 2 calls and at least one injected short transfer/error/Pending/EOF; iter/stream = >= 2 calls; rayon = at least one split. Distinct = distinct scenario hash.".into()
+        "modes io (Read/read_vectored/read_exact/read_to_string/read_to_end/BufRead fill_buf+consume/Write/write_vectored/flush/Seek/stream_position, and the provided methods write_all/read_until/bytes()/io::copy/rewind/seek_relative; wrapper built by wrap_read or wrap_write), aio (tokio poll_read/poll_fill_buf/consume/poll_write/poll_flush/poll_shutdown/AsyncSeek, hand polled), stream (poll_next), iter (next/next_back/len/size_hint and the provided methods nth/nth_back/take().count()/rev()/last/fold/find; built by progress_with or wrap_iter; exhaustion and cancellation), rayon (drive, with_producer, drive_unindexed through a seeded split driver, leaves on simulated threads). 1..40 PRNG calls per run against a simulated source/sink whose every call draws full/short/EINTR/EAGAIN/EIO/Pending/EOF from its own PRNG; the unwrapped twin gets the same plan and call sequence; results, buffers, error kinds and Poll states must be equal call by call and position() must equal the bytes/items actually transferred (seek: new offset; read_exact/read_to_string errors: anywhere up to the bytes the source delivered). Non-trivial: io/aio = >= 2 calls and at least one injected short transfer/error/Pending/EOF; iter/stream = >= 2 calls; rayon = at least one split. Distinct = distinct scenario hash.".into()
     }
     fn assumptions(&self) -> Vec<String> {
         vec![
@@ -1061,6 +1153,7 @@ impl Check for C17 {
         let mode = ["io", "aio", "stream", "iter", "rayon"][rng.weighted(&[6, 5, 2, 3, 4])];
         let mut sc = Scenario::new("C17", mode, rng.next_u64());
         sc.set("visible", rng.chance(1, 5) as u64);
+        sc.set("ctor", rng.below(2));
         sc.set("on_finish", rng.below(5));
         sc.set("len_known", rng.chance(4, 5) as u64);
         let nmax = if tier == Tier::Quick { 25 } else { 40 };
@@ -1074,8 +1167,14 @@ impl Check for C17 {
                 let mut ops = vec![];
                 for _ in 0..n {
                     let cap = *rng.pick(&[0u64, 1, 2, 3, 8, 17, 64]);
-                    ops.push(match rng.weighted(&[10, 4, 4, 2, 8, 8, 6, 3, 2, 5, 2, 1, 2]) {
+                    ops.push(match rng.weighted(&[10, 4, 4, 2, 8, 8, 6, 3, 2, 5, 2, 1, 2, 2, 2, 2, 1, 1, 1]) {
                         12 => Op::new("read_to_end").n(rng.below(6)),
+                        13 => Op::new("write_all").n(cap),
+                        14 => Op::new("read_until").n(rng.below(26)),
+                        15 => Op::new("bytes_next"),
+                        16 => Op::new("io_copy"),
+                        17 => Op::new("rewind"),
+                        18 => Op::new("seek_relative").n(rng.below(50)),
                         0 => Op::new("read").n(cap),
                         1 => Op::new("read_vectored").n(cap).n(rng.below(5)).n(rng.below(9)),
                         2 => Op::new("read_exact").n(cap),
@@ -1124,10 +1223,16 @@ impl Check for C17 {
                     ops.push(if mode == "stream" {
                         if rng.chance(1, 8) { Op::new("advance").n(1_500_000) } else { Op::new("poll_next") }
                     } else {
-                        match rng.weighted(&[8, 4, 2, 1]) {
+                        match rng.weighted(&[8, 4, 2, 1, 1, 1, 1, 1, 1, 1, 1]) {
                             0 => Op::new("next"),
                             1 => Op::new("next_back"),
                             2 => Op::new("len"),
+                            4 => Op::new("nth").n(rng.below(4)),
+                            5 => Op::new("nth_back").n(rng.below(4)),
+                            6 => Op::new("take_count").n(rng.below(5)),
+                            7 => Op::new("rev_next"),
+                            8 => Op::new(if rng.chance(1, 2) { "last" } else { "sum_rest" }),
+                            9 => Op::new("find").n(rng.below(5)),
                             _ => Op::new("advance").n(1_500_000),
                         }
                     });
